@@ -545,7 +545,7 @@ func waitSchedulerGone(max time.Duration) string {
 		n := runtime.Stack(buf, true)
 		var left []string
 		for _, g := range strings.Split(string(buf[:n]), "\n\n") {
-			if strings.Contains(g, "pkg/scheduler.(*Scheduler)") || strings.Contains(g, "pkg/scheduler.(*ClusterContext)") || strings.Contains(g, "pkg/scheduler.(*HealthChecker)") || strings.Contains(g, "pkg/rmproxy.(*RMProxy).handle") {
+			if strings.Contains(g, "pkg/scheduler.(*Scheduler)") || strings.Contains(g, "pkg/scheduler.(*ClusterContext)") || strings.Contains(g, "pkg/scheduler.(*HealthChecker)") || strings.Contains(g, "pkg/scheduler.(*partitionManager).remove") || strings.Contains(g, "pkg/rmproxy.(*RMProxy).handle") {
 				if strings.Contains(g, "waitSchedulerGone") {
 					continue
 				}
